@@ -53,7 +53,10 @@ Live(e) == e.at + ST >= now
 
 \* longest-prefix match over the claims of the peers (router mode); ties: any of the tied peers
 LpmPeers(n, a) ==
-  LET cand == {<<p, r>> \in UNION {{<<p, r>> : r \in Claim[p]} : p \in Peers(n)} : Covers(r, a[2])}
+  \* (claims are ranges of ONE address family - the claims of the model are family 0 - and never match an address of
+  \*  another family, however short the prefix: Range::matches demands equal address lengths; in router mode the first
+  \*  address component is the family: 0 = IPv4, 6 = IPv6)
+  LET cand == {<<p, r>> \in UNION {{<<p, r>> : r \in Claim[p]} : p \in Peers(n)} : a[1] = 0 /\ Covers(r, a[2])}
       best == {c \in cand : \A d \in cand : d[2][2] <= c[2][2]} IN
   {c[1] : c \in best}
 
